@@ -14,7 +14,12 @@ var defaultsByClass = map[string][]*Def{
 	"int": {lit("0"), lit("1"), lit("-1"), lit("42"), lit("007"), lit("18446744073709551615"), lit("-9223372036854775808"),
 		lit("'5'"), lit("0x1F"), lit("0b101"), lit("+5"), raw("(1 + 2)"), raw("NULL")},
 	"num": {lit("1.5"), lit("-0.5"), lit("0.0"), lit("1.50"), lit(".5"), lit("1e3"), lit("1E-2"), lit("-0"), lit("3"), lit("'1.5'"),
-		lit("0.1000000000000000055511151231257827"), lit("123456789012345678901234567890.12"), raw("(1.5 * 2)")},
+		lit("0.1000000000000000055511151231257827"), lit("123456789012345678901234567890.12"), raw("(1.5 * 2)"),
+		// long float literals that float64 holds exactly (11–17 significant digits), exponents, negative, very small.
+		lit("3.14159265358979"), lit("-2.718281828459045"), lit("12345678.12345"), lit("-0.12345678901"), lit("0.000012345678901234"),
+		lit("1.2345678901e-7"), lit("6.02214076123e23"), lit("-1.7976931348623157e308"), lit("4.9406564584124654e-324"), lit("0.30000000000000004"),
+		// integers beyond 64 bits and the non-finite spellings strconv.ParseFloat (sqlx.IsLiteralNumber) accepts.
+		lit("18446744073709551616"), lit("-9223372036854775809"), lit("NaN"), lit("Infinity"), lit("-inf")},
 	"str": {lit("'abc'"), lit("''"), lit("'it''s'"), lit(`'a"b'`), lit("'123'"), lit("'007'"), lit("'1.50'"), lit("'0x10'"), lit("'true'"),
 		lit("'null'"), lit("' '"), lit("'ünï ☃'"), lit(`'a\b'`), lit("'${x}'"), lit("'%{y}'"), lit("'a\nb'"), lit("abc"), lit("123"),
 		lit("007"), lit("1.50"), lit("1e3"), lit("true"), lit("a b"), lit("'"), lit("''''"), lit("x'"),
